@@ -99,3 +99,19 @@ WEXPORT int64_t w_parallel_range_blocks(uint64_t start, uint64_t end, uint64_t b
   }
   W_CATCH_ALL
 }
+// _multi: returns the set of hits, copied out in ascending order
+WEXPORT int64_t w_parallel_range_multi(uint64_t start, uint64_t end, uint64_t block, uint64_t nthreads, uint64_t* out, uint64_t cap) {
+  try {
+    auto r = parallel_range_blocks_multi<uint64_t>(cb, start, end, block, nthreads, nullptr);
+    uint64_t n = 0;
+    for (uint64_t v = start; v < end; v++) {
+      if (r.count(v)) {
+        if (n >= cap) return W_CAPACITY;
+        out[n++] = v;
+      }
+    }
+    if (n != r.size()) return -200; // the set holds a value outside [start,end)
+    return static_cast<int64_t>(n);
+  }
+  W_CATCH_ALL
+}
